@@ -5,6 +5,7 @@ import (
 	"math/rand"
 	"os"
 	"path/filepath"
+	"strings"
 
 	"github.com/scottyw/tetromino/gameboy/memory"
 
@@ -39,7 +40,17 @@ func serialBus(id string, seed int64, writer bool) *trace.Scenario {
 	m := machine.New(intROM, machine.Options{NoCPU: true, NoSerial: !writer})
 	sc := &trace.Scenario{ID: id, Reset: []any{trace.B2I(writer), "bus", seed}}
 	lastSB := 0x53
-	for i := 0; i < 300; i++ {
+	steps := 300
+	long := strings.HasPrefix(id, "serial-long")
+	if long {
+		steps = 110000 // more than 65,536 bytes through the port of one emulator
+	}
+	for i := 0; i < steps; i++ {
+		if long && i%2000 == 1999 && m.Serial != nil {
+			// compared piece by piece: the transcript so far is logged, then the harness's buffer is emptied
+			sc.Ev = append(sc.Ev, []any{"out", outOf(m)}, []any{"cut"})
+			m.Serial.Reset()
+		}
 		a := []int{0xff01, 0xff01, 0xff02, 0xff00, 0xff03, 0xff0f, 0xff10 + rng.Intn(0x30), 0xff80 + rng.Intn(0x7f), 0xc000 + rng.Intn(0x100), 0xff40 + rng.Intn(12)}[rng.Intn(10)]
 		if a == 0xff46 && rng.Intn(3) > 0 {
 			a = 0xff01 // an OAM DMA is "other I/O" too, but keep it occasional
@@ -204,6 +215,7 @@ func serialGen(c *Ctx) {
 		w.Put(serialBus(fmt.Sprintf("serial-bus-%d", i), rng.Int63n(1<<40), i%4 != 3))
 		w.Put(serialProg(fmt.Sprintf("serial-prog-%d", i), rng.Int63n(1<<40), i%4 != 2))
 	}
+	w.Put(serialBus("serial-long-0", rng.Int63n(1<<40), true))
 	// the blargg ROMs print their report on the serial port
 	base := filepath.Join(repoDir(), "gameboy", "testdata", "blargg")
 	roms := []string{"cpu_instrs/individual/06-ld r,r.gb", "cpu_instrs/individual/01-special.gb", "instr_timing/instr_timing.gb", "cpu_instrs/individual/03-op sp,hl.gb",
